@@ -1,2 +1,43 @@
-(* C05 — load then save preserves a package produced by any application. (theorems follow) *)
-From Odf Require Import model.Base model.XmlTree model.Doc model.Load model.LoadInst.
+(* C05 — load then save preserves a package produced by any application. *)
+From Odf Require Import model.Base model.Chars model.XmlLex model.XmlTree model.Doc model.Inst model.LoadStyles model.Load model.LoadInst
+  gen.GenNs proofs.XmlRoundTrip proofs.DocProofs proofs.LoadProofs proofs.LoadRoundTrip.
+
+(* se me co st: settings.xml, meta.xml, content.xml, styles.xml of the source package as parsed (None: absent) - any root
+   element, any attributes on it and on the sections, any number and order of sections, character data between them,
+   unknown elements; part_ok: no CDATA node (parsers deliver none); any_regs: the style names registered during the load. *)
+
+(* the loaded document, section by section: the kept children of the source sections routed to it, in load order;
+   keep = all children when the section has an element child, nothing otherwise *)
+Theorem C05_load : forall mime se me co st, part_ok se -> part_ok me -> part_ok co -> part_ok st -> NoDup (any_regs se me co st) ->
+  i_load_doc mime se me co st = loaded_any mime se me co st.
+Proof. exact load_any. Qed.
+Print Assumptions C05_load.
+
+Theorem C05_sections : forall mime se me co st sid,
+  get_sec sid (loaded_any mime se me co st) =
+  Elem (sec_q sid) [] (kids_routed PnSettings sid (secs_of se) ++ kids_routed PnMeta sid (secs_of me) ++
+                      kids_routed PnContent sid (secs_of co) ++ kids_routed PnStyles sid (secs_of st)).
+Proof. exact loaded_section. Qed.
+Print Assumptions C05_sections.
+
+(* element for element: an attached subtree is unchanged (any depth), C04_attach_identity; here the two routing facts that
+   are not the identity *)
+Theorem C05_content_font_declarations_skipped : forall q a ks, qname_eqb q (q_off "font-face-decls") = true ->
+  kids_routed PnContent SFfd [Elem q a ks] = [].
+Proof. exact content_font_decls_skipped. Qed.
+Print Assumptions C05_content_font_declarations_skipped.
+Theorem C05_styles_font_declarations_kept : forall a ks, kids_routed PnStyles SFfd [Elem (q_off "font-face-decls") a ks] = keep ks.
+Proof. exact styles_font_decls_kept. Qed.
+Print Assumptions C05_styles_font_declarations_kept.
+
+(* saving what was loaded: the parts parse back to the loaded document normalised (C04 applied to the loaded document),
+   so the package saved after load() carries body, common styles, master styles, settings, metadata (generator replaced)
+   and the used automatic styles of the source *)
+Theorem C05_resave : forall env mime se me co st, let d := i_load_doc mime se me co st in
+  sections_ok d -> NoDup (all_regs d) ->
+  doc_ok F env (settings_tree d) = true -> doc_ok F env (meta_tree tv d) = true ->
+  doc_ok F env (content_tree RA d) = true -> doc_ok F env (styles_tree RA d) = true ->
+  i_load_doc (d_mime d) (if has_kids (d_settings d) then xml_parse (i_settingsxml env d) else None)
+             (xml_parse (snd (i_metaxml env d))) (xml_parse (i_contentxml env d)) (xml_parse (i_stylesxml env d)) = expected d.
+Proof. intros env mime se me co st d. exact (save_load_roundtrip env d). Qed.
+Print Assumptions C05_resave.
